@@ -12,7 +12,8 @@ package main
 // last progress is 5 s old or less; otherwise exactly one, whose body is <serial of packet 1 (WORD)>
 // <count (BYTE)> <the missing numbers ascending (WORD each)> and whose frame is an unfragmented
 // 0x8003 addressed to the terminal's phone number in the terminal's protocol version; a transfer
-// older than 60 s is dropped without a re-request and never delivered; once the named packets
+// older than 60 s is dropped without a re-request and never delivered (also when its outstanding
+// packets are the first data after the limit); once the named packets
 // arrive the message is delivered complete with the concatenated body.  Clock steps stay at least
 // 5 ms away from the two limits (the implementation reads the wall clock).
 // Socket level: the same against a real server with real sleeps (one 5.1 s scenario in the quick
@@ -89,6 +90,18 @@ func reference(trs []Transfer, acts []action, margin int64) (exp []expRead, tooC
 			continue
 		}
 		var e expRead
+		// a transfer older than 60 s is discarded before the packets of this read are looked at: late
+		// packets never complete it (fix 4f00aa1)
+		for t, x := range xs {
+			age := now - x.create
+			if abs64(age-60000) < margin {
+				tooClose = true
+			}
+			if age > 60000 {
+				delete(xs, t)
+				nontrivial = true
+			}
+		}
 		for _, it := range a.frames {
 			e.nown++
 			if it.tr < 0 {
@@ -553,7 +566,7 @@ func c14(c *Ctx) {
 	}
 
 	// (4) the 60 s limit exactly: 59995 -> still there (and re-requested), +10 -> gone; the last packets
-	// arriving in the very read that is processed after the limit still complete
+	// arriving as the first data after the limit are ignored (the transfer is dropped first)
 	nexp := 200
 	if !quick {
 		nexp = 4000
@@ -570,7 +583,7 @@ func c14(c *Ctx) {
 		case 0:
 			acts = append(acts, action{age: 59995}, action{frames: []frameItem{heartbeat(rng)}}, action{age: 10}, action{frames: []frameItem{heartbeat(rng)}}, action{frames: rest})
 		case 1:
-			acts = append(acts, action{age: 60005}, action{frames: rest}) // processed before the expiry pass: completes
+			acts = append(acts, action{age: 60005}, action{frames: rest}) // the late packets come as the first data after 60 s: never delivered
 		case 2:
 			acts = append(acts, action{age: 60005}, action{frames: []frameItem{heartbeat(rng)}}, action{frames: rest}, action{age: 5005}, action{frames: []frameItem{heartbeat(rng)}})
 		default:
